@@ -69,6 +69,7 @@ QUICK_MATRIX = [
     DEFAULT_CFG,
     BuildCfg("w32", w64=0),
     BuildCfg("nosimd-aligned", vec128=0, vec256=0, unaligned=0),
+    BuildCfg("simd-aligned", unaligned=0),
     BuildCfg("neutral32", w64=0, le=0, vec128=0, vec256=0, unaligned=0),
     BuildCfg("clang-O1", cc="clang-14", opt="-O1"),
 ]
